@@ -148,6 +148,14 @@ def check_layer_ab(pid, tier, seed, rep):
                                                          how="coq/Check.v: explore_code <observed_program> evaluates to %d; the greedy schedule is the replay" % expl,
                                                          problems=r["problems"]),
                           "%s %s: %s" % (r["pkg"], r["name"], what))
+    if pid == "C05":
+        for r in S["records"]:
+            if r.get("c05_shape_fails") and nmodel < 3:
+                nmodel += 1
+                rep.violation("shape-%d" % r["id"], dict(package_dir=os.path.join(S["srcdir"], r["pkg"]), file=r["file"], injector=r["name"], observed_program=r.get("obs_prog"),
+                                                     positions=r.get("c05_F"), declaration=S["case_text"].get(str(r["id"]), [None])[0],
+                                                     how="coq/Overlap.v: c05b <observed_program> <positions> = false: an input-free Async provider is preceded in its thread by a wait, or two of them share a thread"),
+                              "%s %s: input-free Async providers cannot all be inside at once (a wait or another such provider precedes one of them in its thread)" % (r["pkg"], r["name"]))
     viol = viol or [1] * nmodel
     unchecked = [r for r in S["records"] if r.get("checker_code")]
     if (bad or unchecked) and not viol:
